@@ -6,21 +6,10 @@ from pathlib import Path
 VERIF = Path(__file__).resolve().parent.parent
 ALL = [f"C{i:02d}" for i in range(1, 19)]
 
-COMMON_NOTE = ("Trusted: Coq 8.16.1 kernel; hand-written Gallina model tied to /repo by a differential correspondence run "
-               "(extracted OCaml driver, ExtrOcamlBasic+ExtrOcamlString only, 1% re-evaluated by vm_compute) and by tables regenerated from the source; "
-               "Python harness; CPython/third-party libraries modelled. No axioms (Print Assumptions: closed). ")
-
-CLAIMS = {
-    "C16": dict(
-        text="Theorem C16_exact: for every digest function, every set.pop() behaviour and every list of distinct files the model of "
-             "find_duplicates returns exactly the content-equivalence classes of size >= 2 among non-link members (groups internally equal, "
-             "pairwise different, complete, no unique file), and never runs out of fuel. The model is tied to report.find_duplicates by a "
-             "differential run on generated code bases (two model instances with deliberately colliding digests vs the implementation vs a byte partition).",
-        design_ref="DESIGN.md section 5, C16",
-        note=COMMON_NOTE + "Assumes filecmp.cmp(shallow=False) is byte equality and CodeBase iteration yields each member once.",
-        technique="Coq proof (invariant over the bucket fold + fuelled loop spec) + differential correspondence via extracted model",
-    ),
-}
+CLAIMS = {p.stem: json.loads(p.read_text()) for p in sorted((VERIF / "claims").glob("C*.json"))}
+NA = {}
+if (VERIF / "claims" / "not_applicable.json").exists():
+    NA = json.loads((VERIF / "claims" / "not_applicable.json").read_text())
 
 PENDING_REASON = "check not built yet at this commit (work in progress; design in DESIGN.md section 5) - not claimed until its proof and correspondence run"
 
@@ -42,7 +31,14 @@ def main():
             "level_note": c["note"],
             "technique": c["technique"],
         })
-    na = [{"property_id": p, "reason": CLAIMS.get(p, {}).get("na_reason", PENDING_REASON)} for p in ALL if p not in CLAIMS]
+    na = [{"property_id": p, "reason": NA.get(p, PENDING_REASON)} for p in ALL if p not in CLAIMS]
+    # known findings: assembled from findings/Cxx.json fragments ({"findings": [...], "fixed": [...]})
+    kf = {"findings": [], "fixed": []}
+    for fp in sorted((VERIF / "findings").glob("C*.json")):
+        frag = json.loads(fp.read_text())
+        kf["findings"] += frag.get("findings", [])
+        kf["fixed"] += frag.get("fixed", [])
+    (VERIF / "known_findings.json").write_text(json.dumps(kf, indent=1) + "\n")
     m = {
         "version": 1,
         "setup_cmd": "./setup",
